@@ -17,7 +17,7 @@ import (
 // backgroundRefresh performs asynchronous cache refresh for optimistic caching (RFC 8767).
 // This is called when a stale cache entry is returned to the client.
 // The refresh happens in the background without blocking the client request.
-func (c *DnsController) backgroundRefresh(cacheKey string, dnsMessage *dnsmessage.Msg, req *udpRequest, upstreamIndex consts.DnsRequestOutboundIndex, upstream *dns.Upstream) {
+func (c *DnsController) backgroundRefresh(claimed *DnsCache, cacheKey string, dnsMessage *dnsmessage.Msg, req *udpRequest, upstreamIndex consts.DnsRequestOutboundIndex, upstream *dns.Upstream) {
 	defer func() {
 		if r := recover(); r != nil {
 			c.log.Errorf("panic in backgroundRefresh: %v", r)
@@ -35,8 +35,13 @@ func (c *DnsController) backgroundRefresh(cacheKey string, dnsMessage *dnsmessag
 		// Load the entry directly: LookupDnsRespCache evicts an expired entry, which
 		// would drop the stale answer that is still servable inside the stale window
 		// whenever the refresh fails.
+		// Release only the slot this refresh claimed, and only while that entry is
+		// still the cached one: once the refresh has stored a replacement, the entry
+		// in the map is a different one whose slot may already belong to the next
+		// refresh (a replacement that is stale at once, e.g. TTL 0, can be claimed
+		// before this deferred block runs).
 		if val, ok := c.dnsCache.Load(cacheKey); ok {
-			if cache, ok := val.(*DnsCache); ok && cache.IsRefreshing() {
+			if cache, ok := val.(*DnsCache); ok && cache == claimed && cache.IsRefreshing() {
 				cache.MarkRefreshed()
 			}
 		}
